@@ -79,7 +79,17 @@ def run_case(spec):
         single = np.array([[est.pair_distance(pairs[i * nq + j][None])[0] for j in range(nq)] for i in range(nq)])
         yield 'pair_distance(single-pair batches)', single
         reps = -(-BIG // len(pairs))
-        big = est.pair_distance(np.tile(pairs, (reps, 1, 1))[:BIG])
+        tiled = np.tile(pairs, (reps, 1, 1))
+        for exact_size in (4096, 2 ** 15):          # sizes that ARE multiples of every plausible block size
+            part = est.pair_distance(tiled[:exact_size])
+            idx_p = np.arange(exact_size) % (nq * nq)
+            devp = np.abs(part - ref.ravel()[idx_p])
+            devp[~np.isfinite(part)] = np.inf
+            worst_p = np.zeros(nq * nq)
+            np.maximum.at(worst_p, idx_p, devp)
+            pick = np.array([part[idx_p == k_][np.argmax(devp[idx_p == k_])] for k_ in range(nq * nq)])
+            yield 'pair_distance(batch of %d pairs)' % exact_size, pick.reshape(nq, nq)
+        big = est.pair_distance(tiled[:BIG])
         # every copy of a pair inside the large batch must satisfy the same bound: fold by worst deviation
         folded = np.full(nq * nq, np.nan)
         idx = np.arange(BIG) % (nq * nq)
